@@ -1,13 +1,29 @@
 import Blue.Model.StoreCrash
+import Blue.Model.StoreFault
 import Blue.Driver.Util
-/-! Driver verb for the store crash model (instance `crash`, property C02):
+/-! Driver verbs for the store crash model (instance `crash`, property C02).  A history is a list of
+    clients `put`, `flush`, `reopen`, `compact:<in>;<in>…:<out>;<out>…` (a file name is its batch
+    numbers joined by `.`), always run from the empty store.
 
-    `crash ops <client>*` with clients `put`, `flush`, `reopen`, `compact:<in>;<in>…:<out>;<out>…`
-    (a file name is its batch numbers joined by `.`) → the operation list `StoreCrash.opsOf` emits
-    from the empty store, one token per operation kind.  This is the list theorem
-    `StoreCrash.crash_recover` quantifies crash points over. -/
+    * `crash ops <client>*` → the operation list `StoreCrash.opsOf` emits, one token per operation
+      kind: the list theorem `crash_recover` quantifies crash points over;
+    * `crash fault <i> <client>*` → system call number `i` of that list fails as an injected fault
+      does (no effect of its own; `StoreFault.retried`): `<kind of the call> surfaced|absorbed
+      acked=<acknowledgements the client got> post=<calls after the failed one> recA=<batches a
+      reopen finds after the process exit> recB=<… after a power loss on top>`
+      (`StoreFault.faultOps`, `faultAcked`, `surfaced`: the objects of theorem `fault_surfaces`);
+    * `crash faultx <i> <client>*` → a call outside the model's alphabet fails between calls `i-1`
+      and `i` (a write into a temporary, a mkdir, …): the block stops there;
+    * `crash gcblock <in>;<in>… <out>;<out>…` → the operation list of a compaction of those inputs
+      into those outputs, whatever the outputs hold (`StoreFault.compactOps`, the object of
+      `any_compact_block`): a garbage-collecting compaction;
+    * `crash recover <a|b> <n> <client>*` → the process dies before call `n` under persistence model
+      a / b; what `KeyValueStore::open` does to that directory (`StoreFault.recoverOps`), and
+      `rec=<batches it finds>`;
+    * `crash recover2 <a|b> <n> <a|b> <m> <client>*` → … and the recovering process dies before its
+      own call `m`; `rec=<batches the next reopen finds>` and what that reopen does. -/
 namespace Blue.Driver.C02
-open Blue.Driver Blue.StoreCrash
+open Blue.Driver Blue.StoreCrash Blue.StoreFault
 
 def parseName (s : String) : Option Name := allSome ((s.splitOn ".").map String.toNat?)
 
@@ -39,11 +55,73 @@ def tok : Op → String
   | .logTrash _ => "logTrash"
   | .sstTrash _ => "sstTrash"
 
+def toks (ops : List Op) : String :=
+  if ops.isEmpty then "-" else ",".intercalate (ops.map tok)
+
+def count (r : Option (List Nat)) : String :=
+  match recCount r with
+  | some k => toString k
+  | none => "fail"
+
+def parseModel (s : String) : Option Bool :=
+  if s = "a" then some false else if s = "b" then some true else none
+
+def clientsOf (cs : List String) : Option (List Client) := allSome (cs.map parseClient)
+
+/-- a surfaced failure stops the run (`faultOps`); an absorbed one is skipped and the history goes
+    on on the directory as it is (`opsOfA`, the object of `crash_recover_A`).  `opsOfA … none` is
+    the fault-free list: checked here on every request (`model-inconsistent` otherwise). -/
+def faultLine (clients : List Client) (i : Nat) : String :=
+  let ops := opsOf clients kv0
+  if opsOfA clients fs0 kv0 none ≠ ops then "model-inconsistent"
+  else match ops[i]? with
+  | none => "bad-op"
+  | some op =>
+    if !isCall op then "bad-op"
+    else
+      let after := if absorbed op then opsOfA clients fs0 kv0 (some i) else faultOps ops i (retried op)
+      let dir := run fs0 after
+      tok op ++ (if surfaced ops i then " surfaced" else " absorbed")
+        ++ " acked=" ++ toString (if absorbed op then acked after else faultAcked ops i)
+        ++ " post=" ++ toks (after.drop i)
+        ++ " recA=" ++ count (recoverA dir) ++ " recB=" ++ count (recoverB dir)
+
 def handle : List String → String
   | "ops" :: cs =>
-    match allSome (cs.map parseClient) with
+    match clientsOf cs with
     | some clients => " ".intercalate ((opsOf clients kv0).map tok)
     | none => "bad-op"
+  | "fault" :: i :: cs =>
+    match i.toNat?, clientsOf cs with
+    | some i, some clients => faultLine clients i
+    | _, _ => "bad-op"
+  | "faultx" :: i :: cs =>
+    match i.toNat?, clientsOf cs with
+    | some i, some clients =>
+      let ops := opsOf clients kv0
+      if i > ops.length then "bad-op"
+      else
+        let dir := run fs0 (ops.take i)
+        "- surfaced acked=" ++ toString (acked (ops.take i)) ++ " post=- recA=" ++ count (recoverA dir)
+          ++ " recB=" ++ count (recoverB dir)
+    | _, _ => "bad-op"
+  | ["gcblock", ins, outs] =>
+    match parseNames (if ins = "-" then "" else ins), parseNames (if outs = "-" then "" else outs) with
+    | some i, some o => " ".intercalate ((compactOps i o).map tok)
+    | _, _ => "bad-op"
+  | "recover" :: b :: n :: cs =>
+    match parseModel b, n.toNat?, clientsOf cs with
+    | some b, some n, some clients =>
+      let img := image b (run fs0 ((opsOf clients kv0).take n))
+      toks (recoverOps img) ++ " rec=" ++ count (recoverA img)
+    | _, _, _ => "bad-op"
+  | "recover2" :: b1 :: n :: b2 :: m :: cs =>
+    match parseModel b1, n.toNat?, parseModel b2, m.toNat?, clientsOf cs with
+    | some b1, some n, some b2, some m, some clients =>
+      let img := image b1 (run fs0 ((opsOf clients kv0).take n))
+      let img2 := image b2 (run img ((recoverOps img).take m))
+      toks (recoverOps img2) ++ " rec=" ++ count (recoverA img2)
+    | _, _, _, _, _ => "bad-op"
   | _ => "bad-op"
 
 end Blue.Driver.C02
